@@ -3,286 +3,419 @@
   C01.T1  which graph questions a (verb, except) rule asks        (decision table vs LANGUAGE_DEFINTION.md)
   C01.T2  flag -> query result -> violation bucket -> judging mode (vs the Semantics block)
   C01.T3  no starved bucket / no unread question
-  C01.T4  direction: swap parity of importer/importee, orientation of the 'other' queries
+  C01.T4  direction: swap parity of importer/importee, orientation of the 'other' queries, evaluation-local matcher state
   C01.T5  fluent method -> configuration effect table; 'anything' alias rewrite
   C01.T6  verdict: AssertionError raised exactly on a truthy RuleViolations covering all buckets
   C01.S   search discipline: hierarchy/import classification before use, push/record/mark conditions, object sets
+
+T1-T6 are decided on an *abstract interpretation of the public entry point* `Rule.assert_applies` (rules/absint.py, rules/tables.py):
+for each of the 6 legal (verb, except) points x 2 directions (and the two 'anything' aliases) the pipeline is evaluated with
+concrete configuration flags and symbolic data.  The rules read the resulting *events* - which graph question was asked with which
+arguments, which requirement objects were built from what, which elements reach which violation bucket under which condition, when
+AssertionError is raised - and never the names of private helpers, fields or locals.
 """
 
 from __future__ import annotations
 
 import ast
 
-from core.flow import Flow, Spec
-from core.guards import FALSE, TRUE, atom, atoms_of, conds_formula, equivalent, evaluate, f_and, f_not, f_or, implies, show, to_formula
-from core.loader import AnalysisError, FuncInfo, Repo, calls_in, header, norm, own_nodes, parent
+from core.guards import FALSE, TRUE, atom, atoms_of, equivalent, evaluate, f_and, f_not, f_or, implies, satisfiable, show  # noqa: F401
+from core.loader import AnalysisError, FuncInfo, Repo, own_nodes
 from core.report import Result
-from core.types import members
 
-from . import search as S
-from .common import cfg_of, conds, dotted, guard_formula, is_attr_call, stmt_of, types_of, where
-from .tables import (
-    ATOMS, DETECTOR, EVAL_GRAPH, EXPLICIT_QUERY, LEGAL_POINTS, MATCHER, MODREQ, OTHER_QUERIES, RULE, SEARCHES, VIOLATIONS,
-    Inliner, asked_at, bucket_wiring, issuing_conditions, method_mode, parse_language_doc, point_env, point_name,
+from .absint import BoolF, Coll, Const, DictV, Inst, Interp, Sym, assign_atoms, roots_of, show_term, subterms, tainted, term_of
+from .common import where
+from .tables import (  # noqa: F401
+    EVALUABLE_CLS, EXPLICIT_QUERY, LEGAL_POINTS, MATCHER, MODREQ, OTHER_QUERIES, RULE,
+    Inliner, Run, Scenario, alias_scenarios, bound_args, bucket_wiring, demand_run, descend_pipeline, legal_scenarios, parse_language_doc, plain_detector_class,
+    plain_mode, point_name, point_taint, run_scenario, simple_helper, violations_class,
 )
 
+SUCC = "direct_successor_nodes"
+PRED = "direct_predecessor_nodes"
 
-def run_t1(repo: Repo, res: Result, inl: Inliner, markers: dict) -> list:
-    issues = issuing_conditions(repo, inl)
-    doc_explicit = markers["edge"] | markers["neg edge"]
-    doc_other = markers["any"] | markers["neg any"]
-    for kind, doc in (("explicit", doc_explicit), ("other", doc_other)):
+
+def _site(run: Run, fallback: FuncInfo | None = None) -> tuple[str, str]:
+    """(construct prefix, where) of the place a rule evaluation asks its questions: the function holding the query call."""
+    if run.queries:
+        q = run.queries[0]
+        return f"{q.fi.relpath}::{q.fi.qualname}", where(q.fi, q.node)
+    if run.matcher is not None:
+        return f"{run.matcher.cls.module.relpath}::{run.matcher.cls.name}", ""
+    return f"{RULE}::Rule.assert_applies", ""
+
+
+def _asked(run: Run) -> set[str]:
+    return {"explicit" if q.name == EXPLICIT_QUERY else "other" for q in run.queries if _sat(q.guard)}
+
+
+def _sat(f) -> bool:
+    try:
+        return satisfiable(f)
+    except AnalysisError:
+        return True
+
+
+def _add(res: Result, rule: str, construct: str, ok: bool, detail: str, where_: str = "", kind: str = "structural", taint=None, nontrivial: bool = True) -> None:
+    """A failed obligation whose evidence passes through a construct the interpreter does not model is *undecided*."""
+    if not ok and taint:
+        res.undecide(rule, construct, f"{detail} - but the evidence depends on {taint}", where_)
+        return
+    res.add(rule, construct, ok, detail, where_, nontrivial, kind)
+
+
+# --------------------------------------------------------------------------- T1
+
+
+def run_t1(repo: Repo, res: Result, inl: Inliner | None, markers: dict) -> None:
+    doc = {"explicit": markers["edge"] | markers["neg edge"], "other": markers["any"] | markers["neg any"]}
+    sites: dict = {}
+    for sc in legal_scenarios():
+        run = run_scenario(repo, sc)
+        for q in run.queries:
+            sites.setdefault("explicit" if q.name == EXPLICIT_QUERY else "other", q)
+    probe = run_scenario(repo, Scenario("should", False, True))
+    matcher_cls = probe.matcher.cls if probe.matcher is not None else repo.cls(MATCHER, "RuleMatcher")
+    for kind in ("explicit", "other"):
+        q = sites.get(kind)
+        prefix = f"{q.fi.relpath}::{q.fi.qualname}" if q is not None else f"{matcher_cls.module.relpath}::{matcher_cls.name}"
+        loc = where(q.fi, q.node) if q is not None else ""
         for verb, exc in LEGAL_POINTS:
-            got = asked_at(issues, kind, point_env(verb, exc))
-            want = (verb, exc) in doc
-            site = next(i for i in issues if i.kind == kind)
+            want = (verb, exc) in doc[kind]
+            got = {imp: kind in _asked(run_scenario(repo, Scenario(verb, exc, imp))) for imp in (True, False)}
+            ok = all(g == want for g in got.values())
+            said = "asked" if all(got.values()) else "not asked" if not any(got.values()) else f"asked only for {'import' if got[True] else 'be-imported-by'} rules"
             res.add(
                 "C01.T1",
-                f"{site.func.relpath}::{site.func.qualname}::{kind} question @ {point_name(verb, exc)}",
-                got == want,
-                f"'{point_name(verb, exc)}': the {kind} graph question is {'asked' if got else 'not asked'}, documented: {'asked' if want else 'not asked'}"
-                + ("" if got == want else f" (issuing condition: {' | '.join(show(i.formula) for i in issues if i.kind == kind)})"),
-                where(site.func, site.call),
+                f"{prefix}::{kind} question @ {point_name(verb, exc)}",
+                ok,
+                f"'{point_name(verb, exc)}': the {kind} graph question is {said}, documented: {'asked' if want else 'not asked'}",
+                loc,
                 kind="decision-table",
             )
-    # the two 'other' queries are selected by direction only and between them cover both directions
-    others = [i for i in issues if i.kind == "other"]
-    meths = {i.method for i in others}
+    # every legal rule shape is evaluated up to the verdict: no exception on the way
+    for sc in legal_scenarios():
+        run = run_scenario(repo, sc)
+        fatal = [e for e in run.other_raises if e.guard == TRUE or not _sat(f_not(e.guard))]
+        if fatal:
+            e = fatal[0]
+            res.add(
+                "C01.T1", f"{e.fi.relpath}::{e.fi.qualname}::raise {e.name} @ {sc.name}", False,
+                f"'{sc.name}' is a legal rule, but its evaluation raises {e.name} in {e.fi.qualname} before any verdict is reached",
+                where(e.fi, e.node), kind="decision-table",
+            )
+    # between them, the two 'other' queries cover both directions (one each)
+    used = {imp: {q.name for v, e in LEGAL_POINTS for q in run_scenario(repo, Scenario(v, e, imp)).queries if q.name in OTHER_QUERIES} for imp in (True, False)}
+    ok = all(len(u) == 1 for u in used.values()) and used[True] != used[False]
+    q = sites.get("other")
     res.add(
         "C01.T1",
-        f"{others[0].func.relpath}::{others[0].func.qualname}::both 'other' queries reachable",
-        meths == set(OTHER_QUERIES),
-        f"'other' questions issued through {sorted(meths)}",
-        where(others[0].func, others[0].call),
+        f"{q.fi.relpath}::{q.fi.qualname}::both 'other' queries reachable" if q is not None else f"{matcher_cls.module.relpath}::{matcher_cls.name}::both 'other' queries reachable",
+        ok,
+        f"'other' question: import rules use {sorted(used[True])}, be-imported-by rules use {sorted(used[False])}",
+        where(q.fi, q.node) if q is not None else "",
         kind="decision-table",
     )
-    # arguments of every question: (importers, importees) of the *updated* requirement, in this order
-    for i in issues:
-        args = [norm(a) for a in i.call.args]
-        ok = len(args) == 2 and args[0].endswith(".importers") and args[1].endswith(".importees") and "_updated_module_requirement" in args[0] and "_updated_module_requirement" in args[1]
-        res.add(
-            "C01.T4",
-            repo.key(i.func, stmt_of(i.call)) + f" [{i.method} arguments]",
-            ok,
-            "query receives (importers, importees) of the converted requirement" if ok else f"query `{i.method}` receives {args}: expected (updated.importers, updated.importees)",
-            where(i.func, i.call),
-            kind="flow",
-        )
-    return issues
 
 
-def run_t2_t3(repo: Repo, res: Result, inl: Inliner, sem: dict, issues: list) -> None:
+# --------------------------------------------------------------------------- T2 / T3
+
+
+def run_t2_t3(repo: Repo, res: Result, inl: Inliner | None, sem: dict) -> None:
     grv, buckets = bucket_wiring(repo, inl)
-    det = repo.cls(DETECTOR, "RuleViolationDetector")
-    modes = {}
-    for b in buckets:
-        mode, gran, helper = method_mode(repo, inl.T, det, b.method)
-        modes[b.field] = (mode, gran, helper)
-    res.analysed["bucket_table"] = {b.field: {"flag": show(b.flag), "source": b.source, "mode": modes[b.field][0], "granularity": modes[b.field][1], "method": b.method} for b in buckets}
+    viol = violations_class(repo)
+    table = {}
     for verb, exc in LEGAL_POINTS:
-        env = point_env(verb, exc)
-        active = {(b.source, modes[b.field][0]) for b in buckets if evaluate(b.flag, env)}
         want = sem[(verb, exc)]
-        res.add(
-            "C01.T2",
-            f"{grv.relpath}::{grv.qualname}::buckets @ {point_name(verb, exc)}",
-            active == want,
-            f"'{point_name(verb, exc)}' judges {sorted(active)}; documented semantics: {sorted(want)}",
-            where(grv, grv.node),
-            kind="decision-table",
+        per_dir = {}
+        und = ""
+        for imp in (True, False):
+            b = demand_run(repo, Scenario(verb, exc, imp))
+            per_dir[imp] = {(x.source, x.mode) for x in b.values() if not x.empty}
+        und = point_taint(repo, verb, exc)
+        active = per_dir[True] | per_dir[False]
+        ok = per_dir[True] == want and per_dir[False] == want
+        table[point_name(verb, exc)] = sorted(map(str, active))
+        _add(
+            res, "C01.T2", f"{grv.relpath}::{grv.qualname}::buckets @ {point_name(verb, exc)}", ok,
+            f"'{point_name(verb, exc)}' judges {sorted(map(str, active))}; documented semantics: {sorted(want)}"
+            + ("" if per_dir[True] == per_dir[False] else f" (import rules: {sorted(map(str, per_dir[True]))}, be-imported-by rules: {sorted(map(str, per_dir[False]))})"),
+            where(grv, grv.node), "decision-table", und,
         )
-        # T3: sources read by active buckets == questions asked
-        used = {s for s, _m in active}
-        asked = {k for k in ("explicit", "other") if asked_at(issues, k, env)}
-        res.add(
-            "C01.T3",
-            f"{grv.relpath}::{grv.qualname}::starvation @ {point_name(verb, exc)}",
-            used == asked,
-            f"'{point_name(verb, exc)}': buckets read {sorted(used)}, questions asked {sorted(asked)}"
-            + ("" if used == asked else (": a bucket whose data is never requested receives None and passes vacuously" if used - asked else ": a question is asked whose answer no bucket reads")),
-            where(grv, grv.node),
-            kind="decision-table",
+        # T3: sources read by the active buckets == questions asked
+        for imp in (True, False):
+            sc = Scenario(verb, exc, imp)
+            used = {s for s, _m in per_dir[imp]}
+            asked = _asked(run_scenario(repo, sc))
+            if imp and used == asked and {s for s, _m in per_dir[False]} == _asked(run_scenario(repo, Scenario(verb, exc, False))):
+                res.add("C01.T3", f"{grv.relpath}::{grv.qualname}::starvation @ {point_name(verb, exc)}", True, f"'{point_name(verb, exc)}': buckets read {sorted(map(str, used))}, questions asked {sorted(asked)}", where(grv, grv.node), kind="decision-table")
+                break
+            if used != asked:
+                _add(
+                    res, "C01.T3", f"{grv.relpath}::{grv.qualname}::starvation @ {point_name(verb, exc)}", False,
+                    f"'{sc.name}': buckets read {sorted(map(str, used))}, questions asked {sorted(asked)}"
+                    + (": a bucket whose data is never requested receives None and passes vacuously" if used - asked else ": a question is asked whose answer no bucket reads"),
+                    where(grv, grv.node), "decision-table", und,
+                )
+                break
+    res.analysed["bucket_table"] = table
+    # judging granularity of every bucket of the plain detector
+    call_of = {b.field: b for b in buckets}
+    for f in viol.ann_attrs:
+        mode, gran, detail, und = plain_mode(repo, f)
+        b = call_of.get(f)
+        helper = repo.lookup_method(plain_detector_class(repo), b.method) if b is not None and b.method else None
+        prefix = f"{helper.relpath}::{helper.qualname}" if helper is not None else f"{grv.relpath}::{grv.qualname}"
+        ok = (mode, gran) in (("absent", "per-key"), ("present", "per-pair"))
+        if mode is None:
+            _add(res, "C01.T2", f"{prefix}::granularity of {f}", False, f"{f} is never filled at any legal (verb, except) point: violations of one rule shape can never be reported", where(helper, helper.node) if helper is not None else where(grv, grv.node), "structural", und)
+            continue
+        _add(
+            res, "C01.T2", f"{prefix}::granularity of {f}", ok,
+            f"{f}: {mode} mode judged {gran}" + ("" if ok else (": requirements of a module rule must be judged per subject/object pair resp. per subject, not jointly" if mode == "absent" else ": realised pairs are filtered before being reported") + (f" [{detail}]" if detail else "")),
+            where(helper, helper.node) if helper is not None else where(grv, grv.node), "structural", und,
         )
-    # judging granularity of the plain detector: absent-mode buckets are judged per key, present-mode unfiltered
-    for b in buckets:
-        mode, gran, helper = modes[b.field]
-        ok = gran in ("per-key", "per-pair")
-        res.add(
-            "C01.T2",
-            f"{helper.relpath}::{helper.qualname}::granularity of {b.field}",
-            ok,
-            f"{b.field}: {mode} mode judged {gran}" + ("" if ok else (": requirements of a module rule must be judged per subject/object pair resp. per subject, not jointly" if mode == "absent" else ": realised pairs are filtered before being reported")),
-            where(helper, helper.node),
-            kind="structural",
-        )
 
 
-def run_t4(repo: Repo, res: Result, inl: Inliner) -> None:
-    T = inl.T
-    mr = repo.cls(MODREQ, "ModuleRequirement")
-    init = mr.methods["__init__"]
-    p_importers, p_importees, p_flag = init.param_names[1:4]
-    # fields written from the raw parameters
-    raw_fields: dict[str, str] = {}
-    swaps = []
-    for n in own_nodes(init.node):
-        if isinstance(n, ast.Assign):
-            if isinstance(n.value, ast.Name) and n.value.id in (p_importers, p_importees, p_flag):
-                for t in n.targets:
-                    if isinstance(t, ast.Attribute):
-                        raw_fields.setdefault(t.attr, n.value.id)
-            if isinstance(n.value, ast.Tuple) and isinstance(n.targets[0], ast.Tuple):
-                swaps.append(n)
-    # accessor -> field
-    def accessor_field(name: str) -> str | None:
-        m = mr.methods.get(name)
-        if m is None:
-            return None
-        rets = [s for s in own_nodes(m.node) if isinstance(s, ast.Return)]
-        if len(rets) == 1 and isinstance(rets[0].value, ast.Attribute):
-            return rets[0].value.attr
-        return None
+# --------------------------------------------------------------------------- T4
 
-    ok_swap = len(swaps) == 1
-    swap_cond = None
-    swapped_fields: set[str] = set()
-    if ok_swap:
-        sw = swaps[0]
-        tg = [dotted(t) for t in sw.targets[0].elts]
-        vl = [dotted(v) for v in sw.value.elts]
-        ok_swap = len(tg) == 2 and tg == list(reversed(vl))
-        swapped_fields = {t.split(".")[-1] for t in tg}
-        # condition: swap iff importer is NOT the rule subject
-        cf = conds_formula(conds(init, sw))
 
-        def subst(x: ast.expr):
-            if isinstance(x, ast.Attribute) and dotted(x.value) == "self":
-                meth = mr.methods.get(x.attr)
-                if meth is not None and meth.is_property:
-                    r = [s for s in own_nodes(meth.node) if isinstance(s, ast.Return)]
-                    if len(r) == 1:
-                        return to_formula(r[0].value, subst)
-                if x.attr in raw_fields and raw_fields[x.attr] == p_flag:
-                    return atom("importer_is_subject")
-            if isinstance(x, ast.Name) and x.id == p_flag:
-                return atom("importer_is_subject")
-            return None
+def _side(v) -> set:
+    return roots_of(v) & {"S", "O"}
 
-        swap_cond = f_and([to_formula(e, subst) if pol else f_not(to_formula(e, subst)) for e, pol in conds(init, sw)])
-        ok_swap = ok_swap and equivalent(swap_cond, f_not(atom("importer_is_subject")))
-    res.add(
-        "C01.T4",
-        f"{init.relpath}::{init.qualname}::conditional exchange",
-        ok_swap,
-        "importers/importees are exchanged exactly when the rule is written 'be imported by'" if ok_swap else f"the importer/importee exchange is not applied exactly for be-imported-by rules (condition: {show(swap_cond) if swap_cond else 'not found'})",
-        where(init, swaps[0] if swaps else init.node),
-        kind="decision-table",
-    )
-    # as-specified accessors must read fields that the exchange does not touch; effective accessors the exchanged ones
-    for acc, want_param, must_swap in (
-        ("importers_as_specified_by_user", p_importers, False),
-        ("importees_as_specified_by_user", p_importees, False),
-        ("importers", p_importers, True),
-        ("importees", p_importees, True),
-    ):
-        fld = accessor_field(acc)
-        ok = fld is not None and raw_fields.get(fld) == want_param and ((fld in swapped_fields) == must_swap)
+
+def search_direction(repo: Repo, fi: FuncInfo) -> str | None:
+    """pred | succ: which neighbours a search function of breadth_first_searches expands to find import edges.
+
+    A backward search reaches a `direct_predecessor_nodes` expansion (it may also walk down the hierarchy through successors);
+    a forward search reaches successor expansions only.
+    """
+    mod = fi.module
+    seen, work = set(), [fi]
+    attrs: set[str] = set()
+    while work:
+        f = work.pop()
+        if f.fq in seen:
+            continue
+        seen.add(f.fq)
+        for n in ast.walk(f.node):
+            if isinstance(n, ast.Attribute) and n.attr in (SUCC, PRED):
+                attrs.add(n.attr)
+            if isinstance(n, ast.Call) and isinstance(n.func, ast.Name):
+                if n.func.id in mod.functions:
+                    work.append(mod.functions[n.func.id])
+                else:  # a search helper imported from another module
+                    fq = repo.resolve_name(f.module, n.func)
+                    m2, _, attr = (fq or "").rpartition(".")
+                    om = repo.modules.get(m2)
+                    if om is not None and attr in om.functions:
+                        work.append(om.functions[attr])
+    if PRED in attrs:
+        return "pred"
+    if SUCC in attrs:
+        return "succ"
+    return None
+
+
+def _stub(f: FuncInfo) -> bool:
+    """Body is only a docstring / `...` / `pass` / `raise NotImplementedError` (protocol or abstract declaration)."""
+    for st in f.node.body:
+        if isinstance(st, ast.Expr) and isinstance(st.value, ast.Constant):
+            continue
+        if isinstance(st, ast.Pass):
+            continue
+        if isinstance(st, ast.Raise) and st.exc is not None and "NotImplemented" in ast.unparse(st.exc):
+            continue
+        return False
+    return True
+
+
+def graph_query_model(repo: Repo, qname: str) -> dict:
+    """How EvaluableArchitectureGraph.<qname> builds its answer: {direction, entries: [(key roots, scalar arg roots, collection arg roots)]}."""
+    proto = repo.classes.get(EVALUABLE_CLS)
+    impls = [i for i in (repo.implementations(proto, qname) if proto is not None else []) if not i.is_abstract and i.cls is not None and i.cls is not proto and not _stub(i)]
+    if len(impls) != 1:
+        raise AnalysisError(f"expected exactly one concrete implementation of EvaluableArchitecture.{qname}, found {[i.fq for i in impls]}")
+    m = impls[0]
+    eg = m.cls
+    home = eg.module.name
+    I = Interp(repo, lambda f: (f.module.name == home and (f.cls is None or any(c.fq == f.cls.fq for c in repo.mro(eg)))) or ((f.cls is None or f.is_staticmethod) and f.outer is None and simple_helper(f)))
+    inst = I.instantiate(eg, [Sym(("root", "graph"))], {}, None, None)
+    p1, p2 = Sym(("root", "P1"), "list"), Sym(("root", "P2"), "list")
+    out = I.call_method(inst, qname, [p1, p2])
+    searches = [e for e in I.events if e.kind == "call" and e.callee is not None and search_direction(repo, e.callee) is not None]
+    dirs = {search_direction(repo, e.callee) for e in searches}
+    entries = []
+    if isinstance(out, DictV):
+        for k, v, _g in out.entries:
+            call = next((e for e in searches if e.result is not None and term_of(e.result) in set(subterms(term_of(v)))), None)
+            scalar, coll = set(), set()
+            if call is not None:
+                for a in call.args:
+                    r = roots_of(a) & {"P1", "P2"}
+                    if not r:
+                        continue
+                    t = term_of(a)
+                    if any(isinstance(st, tuple) and st and st[0] == "elem" for st in subterms(t)) and not isinstance(a, Coll):
+                        scalar |= r
+                    else:
+                        coll |= r
+            entries.append((roots_of(k) & {"P1", "P2"}, scalar, coll, call))
+    return {"method": m, "directions": dirs, "entries": entries, "searches": searches, "notes": I.notes, "result": out}
+
+
+def run_t4(repo: Repo, res: Result, inl: Inliner | None) -> None:
+    probe = run_scenario(repo, Scenario("should", False, True))
+    mr_cls = probe.modreq_new[0].result.cls if probe.modreq_new else repo.cls(MODREQ, "ModuleRequirement")
+    # (a) what the accessors of a requirement built as ModuleRequirement(A, B, flag) return
+    for acc, exchanged in (("importers_as_specified_by_user", False), ("importees_as_specified_by_user", False), ("importers", True), ("importees", True)):
+        got = {}
+        for flag in (True, False):
+            I = Interp(repo, descend_pipeline)
+            inst = I.instantiate(mr_cls, [Sym(("root", "S"), "list"), Sym(("root", "O"), "list"), Const(flag)], {}, None, None)
+            got[flag] = _side(I.getattr(inst, acc, None, None)) if isinstance(inst, Inst) else set()
+        first = acc.startswith("importers")
+        want = {True: {"S"} if first else {"O"}, False: ({"O"} if first else {"S"}) if exchanged else ({"S"} if first else {"O"})}
+        ok = got == want
+        m = repo.lookup_method(mr_cls, acc)
         res.add(
             "C01.T4",
-            f"{mr.module.relpath}::ModuleRequirement.{acc}::field",
+            f"{mr_cls.module.relpath}::{mr_cls.name}.{acc}::exchange",
             ok,
-            f"{acc} reads {fld} ({'exchanged' if must_swap else 'as given'})" if ok else f"{acc} reads field {fld}: expected a field initialised from `{want_param}` that is {'subject to' if must_swap else 'untouched by'} the exchange",
-            kind="structural",
+            f"{acc} of ModuleRequirement(a, b, importer_is_subject) is {'a / b exchanged exactly for be-imported-by rules' if exchanged else 'the side as given'}" if ok
+            else f"ModuleRequirement(a, b, flag).{acc} yields {'/'.join(sorted(got[True])) or '?'} for import rules and {'/'.join(sorted(got[False])) or '?'} for be-imported-by rules (a=S, b=O): "
+            + ("importers/importees must be exchanged exactly when the rule is written 'be imported by'" if exchanged else "the as-specified accessor must not be affected by the exchange"),
+            where(m, m.node) if m is not None else "",
+            kind="decision-table",
         )
-    # constructions of ModuleRequirement: in Rule (subjects, objects, import_) and in the matcher (as-specified accessors)
-    rule_prep = None
-    for f in [*repo.module(RULE).all_funcs, *repo.module(MATCHER).all_funcs]:
-        for call in calls_in(f.node):
-            ci = T.ctor_class(f, call)
-            if ci is None or ci.fq != mr.fq:
+    # (b) the requirement objects built on the way, and the arguments of every question
+    seen_sites: set = set()
+    for sc in legal_scenarios():
+        run = run_scenario(repo, sc)
+        subj, obj = ("S", "O")
+        imp = sc.import_
+        for n, e in enumerate(run.modreq_new):
+            key = (id(e.node), imp)
+            if key in seen_sites:
                 continue
-            args = [norm(a) for a in call.args]
-            if f.module.name == RULE:
-                ok = len(args) == 3 and args[0].endswith(".modules_to_check") and args[1].endswith(".modules_to_check_against") and args[2].endswith(".import_")
-                detail = "ModuleRequirement(subjects, objects, import_)" if ok else f"rule builds ModuleRequirement({', '.join(args)}): expected (modules_to_check, modules_to_check_against, import_)"
-            else:
-                # arguments must derive from the as-specified accessors (the constructor applies the exchange itself)
+            seen_sites.add(key)
+            eargs = bound_args(repo, e)
+            if len(eargs) < 3:
+                res.undecide("C01.T4", f"{e.fi.relpath}::{e.fi.qualname}::ModuleRequirement(...)", "the constructor arguments could not be bound to (importers, importees, flag)", where(e.fi, e.node) if e.node is not None else "")
+                continue
+            a0, a1 = _side(eargs[0]), _side(eargs[1])
+            flag = eargs[2]
+            ok = a0 == {subj} and a1 == {obj} and isinstance(flag, Const) and flag.value is imp
+            what = "rule" if e.fi is not None and e.fi.cls is not None and any(c.fq == e.fi.cls.fq for c in repo.mro(run.rule.cls)) else "matcher"
+            detail = (
+                f"{e.fi.qualname if e.fi else '?'} builds ModuleRequirement(subjects, objects, import_) for {'import' if imp else 'be-imported-by'} rules" if ok
+                else f"{e.fi.qualname if e.fi else '?'} builds ModuleRequirement from ({'/'.join(sorted(a0)) or '?'}, {'/'.join(sorted(a1)) or '?'}, {show_term(term_of(flag))}) for {'import' if imp else 'be-imported-by'} rules "
+                f"(S = rule subjects, O = rule objects): the constructor applies the importer/importee exchange itself, so it must receive (subjects, objects, import_) - "
+                + ("the exchange is applied an even number of times for be-imported-by rules" if what == "matcher" else "subjects and objects are confused")
+            )
+            res.add("C01.T4", f"{e.fi.relpath}::{e.fi.qualname}::ModuleRequirement(...) [{'import' if imp else 'be imported by'}]", ok, detail, where(e.fi, e.node) if e.node is not None else "", kind="flow")
+        for q in run.queries:
+            key = (id(q.node), q.name, imp)
+            if key in seen_sites:
+                continue
+            seen_sites.add(key)
+            qargs = bound_args(repo, q)
+            if len(qargs) < 2:
+                res.undecide("C01.T4", f"{q.fi.relpath}::{q.fi.qualname}::{q.name} arguments", "the arguments of the graph question could not be bound to (dependents, dependent_upons)", where(q.fi, q.node))
+                continue
+            a0, a1 = _side(qargs[0]), _side(qargs[1])
+            want0, want1 = ({subj}, {obj}) if imp else ({obj}, {subj})
+            ok = a0 == want0 and a1 == want1
+            res.add(
+                "C01.T4",
+                f"{q.fi.relpath}::{q.fi.qualname}::{q.name} arguments [{'import' if imp else 'be imported by'}]",
+                ok,
+                f"query receives (importers, importees) = ({'subjects, objects' if imp else 'objects, subjects'}) of the converted requirement" if ok
+                else f"query `{q.name}` receives ({'/'.join(sorted(a0)) or '?'}, {'/'.join(sorted(a1)) or '?'}) for {'import' if imp else 'be-imported-by'} rules (S = subjects, O = objects): expected ({'/'.join(want0)}, {'/'.join(want1)}) - importers first, importees second",
+                where(q.fi, q.node),
+                kind="flow",
+            )
+    # (c) every evaluation asks its questions with modules converted for *its* evaluable: the same rule object is evaluated a second
+    # time against another evaluable; where the second evaluation is stale, the matcher state that carries the first evaluation's
+    # data over is named (a field read on entry of an evaluation and overwritten with evaluable-derived data)
+    from .tables import run_twice
 
-                def sources(fn: FuncInfo, e: ast.expr):
-                    if isinstance(e, ast.Attribute) and e.attr in ("importers_as_specified_by_user", "importees_as_specified_by_user", "importers", "importees"):
-                        return {e.attr}
-                    return None
-
-                flow = Flow(repo, T, Spec(sources=sources, scope=lambda fn: fn is f))
-                t0, t1 = flow.tags(call.args[0]), flow.tags(call.args[1])
-                ok = t0 == {"importers_as_specified_by_user"} and t1 == {"importees_as_specified_by_user"} and len(args) == 3 and args[2].endswith("rule_specified_with_importer_as_rule_subject")
-                detail = (
-                    "the converted requirement is rebuilt from the as-specified sides (exchange applied exactly once)"
-                    if ok
-                    else f"the converted requirement is rebuilt from {sorted(t0)} / {sorted(t1)} / {args[2] if len(args) > 2 else '?'}: the importer/importee exchange is applied an even number of times for be-imported-by rules"
-                )
-            res.add("C01.T4", repo.key(f, stmt_of(call)), ok, detail, where(f, call), kind="flow")
-    # orientation of the 'other' query chosen per direction
-    eg = repo.cls(EVAL_GRAPH, "EvaluableArchitectureGraph")
-    models = {m.fi.name: m for m in S.models(repo)}
-    matcher = repo.cls(MATCHER, "RuleMatcher")
-    for m in matcher.methods.values():
-        for n in own_nodes(m.node):
-            if isinstance(n, ast.Attribute) and n.attr in OTHER_QUERIES and isinstance(n.ctx, ast.Load):
-                cf = conds(m, n)
-
-                def subst2(x: ast.expr):
-                    if isinstance(x, ast.Attribute) and x.attr == "rule_specified_with_importer_as_rule_object":
-                        return f_not(atom("importer_is_subject"))
-                    if isinstance(x, ast.Attribute) and x.attr == "rule_specified_with_importer_as_rule_subject":
-                        return atom("importer_is_subject")
-                    return None
-
-                f = f_and([to_formula(e, subst2) if pol else f_not(to_formula(e, subst2)) for e, pol in cf])
-                impl = eg.methods.get(n.attr)
-                if impl is None:
-                    raise AnalysisError(f"EvaluableArchitectureGraph.{n.attr} not found")
-                used = [c.func.id for c in calls_in(impl.node) if isinstance(c.func, ast.Name) and c.func.id in models]
-                if len(used) != 1:
-                    raise AnalysisError(f"{impl.fq}: expected exactly one search call, found {used}")
-                direction = models[used[0]].direction
-                want_subject = direction == "succ"
-                ok = implies(f, atom("importer_is_subject") if want_subject else f_not(atom("importer_is_subject"))) and "importer_is_subject" in atoms_of(f)
-                res.add(
-                    "C01.T4",
-                    repo.key(m, stmt_of(n)) + f" [{n.attr}]",
-                    ok,
-                    f"{n.attr} ({'forward' if direction == 'succ' else 'backward'} search) is selected for {'import' if want_subject else 'be-imported-by'} rules" if ok else f"{n.attr} expands {direction} edges but is selected under `{show(f)}`: subject and 'something else' are on the wrong sides of the import",
-                    where(m, n),
-                    kind="decision-table",
-                )
-                # per-subject loop ranges over the subject side
-                subj_param = impl.param_names[1] if want_subject else impl.param_names[2]
-                loops = [l for l in own_nodes(impl.node) if isinstance(l, ast.For)]
-                okl = False
-                for l in loops:
-                    src = dotted(l.iter)
-                    origin = _set_origin(impl, src)
-                    if origin == subj_param and any(c.func.id == used[0] for c in ast.walk(l) if isinstance(c, ast.Call) and isinstance(c.func, ast.Name)):
-                        okl = True
-                res.add(
-                    "C01.T4",
-                    f"{impl.relpath}::{impl.qualname}::per-subject loop",
-                    okl,
-                    f"one search per element of `{subj_param}` (the subject side)" if okl else f"the per-subject loop does not range over `{subj_param}`: 'something else' is judged per object instead of per subject",
-                    where(impl, impl.node),
-                    kind="structural",
-                )
-
-
-def _set_origin(fi: FuncInfo, var: str) -> str:
-    for n in own_nodes(fi.node):
-        if isinstance(n, ast.Assign) and isinstance(n.targets[0], ast.Name) and n.targets[0].id == var and isinstance(n.value, ast.Call) and isinstance(n.value.func, ast.Name) and n.value.func.id in ("set", "list", "frozenset", "sorted") and n.value.args:
-            return dotted(n.value.args[0])
-    return var
+    for imp in (True, False):
+        sc = Scenario("should_only", False, imp)
+        first, second = run_twice(repo, sc)
+        stale = [q for q in second if "evaluable" in set().union(roots_of(q.recv), *[roots_of(a) for a in bound_args(repo, q)])]
+        carriers = []
+        for inst in first.interp.instances:
+            if inst is first.rule or inst is first.config0:
+                continue
+            for fld in sorted(set(inst.entry_reads) & set(inst.late_writes)):
+                for value, fi, node in inst.late_writes[fld]:
+                    if "evaluable" in roots_of(value) or (isinstance(value, Inst) and any("evaluable" in roots_of(x) for x in value.fields.values())):
+                        carriers.append((inst, fld, fi, node))
+        site = first.queries[0] if first.queries else None
+        prefix = f"{site.fi.relpath}::{site.fi.qualname}" if site is not None else "rule evaluation"
+        tag = "import" if imp else "be imported by"
+        if not stale:
+            res.add("C01.T4", f"{prefix}::questions of a second evaluation [{tag}]", True, "a second evaluation of the same rule object asks its questions with modules converted against its own evaluable", where(site.fi, site.node) if site else "", kind="flow")
+        elif carriers:
+            inst, fld, fi, node = carriers[0]
+            res.add(
+                "C01.T4", f"{fi.relpath}::{fi.qualname}::state `{fld}` of {inst.cls.name} [{tag}]" if fi else f"state `{fld}` [{tag}]", False,
+                f"`{inst.cls.name}.{fld}` is read at the start of an evaluation and overwritten with a value derived from the evaluable being checked; the object survives the evaluation, so a second evaluation "
+                f"(another evaluable) asks `{stale[0].name}` with the first one's converted modules",
+                where(fi, node) if fi and node is not None else "", kind="flow",
+            )
+        else:
+            q = stale[0]
+            res.add("C01.T4", f"{q.fi.relpath}::{q.fi.qualname}::questions of a second evaluation [{tag}]", False, f"a second evaluation of the same rule object asks `{q.name}` with modules converted against the previous evaluable", where(q.fi, q.node), kind="flow")
+    # (d) orientation of the 'other' query chosen per direction, and the per-subject judgement inside it
+    for imp in (True, False):
+        used = sorted({q.name for v, e in LEGAL_POINTS for q in run_scenario(repo, Scenario(v, e, imp)).queries if q.name in OTHER_QUERIES})
+        for qname in used:
+            model = graph_query_model(repo, qname)
+            m = model["method"]
+            dirs = model["directions"]
+            want_dir = "succ" if imp else "pred"
+            site = next(q for v, e in LEGAL_POINTS for q in run_scenario(repo, Scenario(v, e, imp)).queries if q.name == qname)
+            if len(dirs) != 1 or None in dirs:
+                res.undecide("C01.T4", f"{m.relpath}::{m.qualname}::search", f"expected exactly one graph search behind `{qname}`, found directions {sorted(map(str, dirs))}", where(m, m.node))
+                continue
+            d = next(iter(dirs))
+            ok = d == want_dir
+            res.add(
+                "C01.T4",
+                f"{site.fi.relpath}::{site.fi.qualname}::{qname} [selected for {'import' if imp else 'be imported by'}]",
+                ok,
+                f"{qname} ({'forward' if d == 'succ' else 'backward'} search) is selected for {'import' if imp else 'be-imported-by'} rules" if ok
+                else f"{qname} expands {'successors' if d == 'succ' else 'predecessors'} but is selected for {'import' if imp else 'be-imported-by'} rules: subject and 'something else' are on the wrong sides of the import",
+                where(site.fi, site.node),
+                kind="decision-table",
+            )
+            # per-subject: one search per element of the subject side (importers for the forward, importees for the backward search)
+            subj_param = "P1" if d == "succ" else "P2"
+            other_param = "P2" if d == "succ" else "P1"
+            ents = model["entries"]
+            okl = bool(ents) and all(k == {subj_param} and sc_ == {subj_param} and co == {other_param} for k, sc_, co, _c in ents)
+            pname = m.param_names[1] if subj_param == "P1" else m.param_names[2]
+            if not ents and model["notes"]:
+                res.undecide("C01.T4", f"{m.relpath}::{m.qualname}::per-subject loop", f"the answer of `{qname}` is not built in a way the interpreter models ({'; '.join(model['notes'][:2])})", where(m, m.node))
+                continue
+            got = "; ".join(f"key from {'/'.join(sorted(k)) or '?'}, search({'/'.join(sorted(s_)) or '?'} against {'/'.join(sorted(c_)) or '?'})" for k, s_, c_, _c in ents) or "no entry"
+            res.add(
+                "C01.T4",
+                f"{m.relpath}::{m.qualname}::per-subject loop",
+                okl,
+                f"one search per element of `{pname}` (the subject side) against all of the other side" if okl
+                else f"the answer of {qname} is built as [{got}] (P1 = first, P2 = second argument): 'something else' must be judged per element of `{pname}` (the subject side) against the whole other side",
+                where(m, m.node),
+                kind="structural",
+            )
 
 
-# expected effect of every fluent method on the rule configuration (the documented vocabulary)
+# --------------------------------------------------------------------------- T5
+
+# expected effect of every fluent method on the rule configuration (the documented vocabulary); `_next` is the marker that tells
+# whether module names given next are rule subjects (True) or rule objects (False)
 FLUENT_EFFECTS = {
     "modules_that": {"_next": True},
     "should": {"should": True},
@@ -297,35 +430,71 @@ FLUENT_EFFECTS = {
 }
 
 
-def method_effects(repo: Repo, cls, name: str, depth: int = 0) -> dict[str, object]:
-    m = repo.lookup_method(cls, name)
-    if m is None:
-        raise AnalysisError(f"{cls.fq}.{name} not found")
-    eff: dict[str, object] = {}
-    for s in m.body:
-        if isinstance(s, ast.Expr) and isinstance(s.value, ast.Constant):
-            continue
-        if isinstance(s, ast.Assign) and len(s.targets) == 1 and isinstance(s.value, ast.Constant):
-            t = dotted(s.targets[0])
-            if t.startswith("self._configuration."):
-                eff[t.split(".")[-1]] = s.value.value
-                continue
-            if t == "self._modules_to_check_to_be_specified_next":
-                eff["_next"] = s.value.value
-                continue
-        if isinstance(s, ast.Expr) and isinstance(s.value, ast.Call) and isinstance(s.value.func, ast.Attribute) and dotted(s.value.func.value) == "self" and not s.value.args and depth < 3:
-            eff.update(method_effects(repo, cls, s.value.func.attr, depth + 1))
-            continue
-        if isinstance(s, ast.Return) and isinstance(s.value, ast.Name) and s.value.id == "self":
-            continue
-        raise AnalysisError(f"{m.fq}: statement `{header(s)}` is not a recognised configuration effect")
-    return eff
+def _plain(v):
+    if isinstance(v, Const):
+        return v.value
+    return show_term(term_of(v))
+
+
+def method_effects(repo: Repo, name: str) -> tuple[dict, list]:
+    """Effect of calling one fluent method on a fresh Rule: {configuration field / other Rule field: new value}."""
+    from .tables import _find_config, _rule_class
+
+    I = Interp(repo, descend_pipeline)
+    rule = I.instantiate(_rule_class(repo), [], {}, None, None)
+    if not isinstance(rule, Inst):
+        raise AnalysisError("Rule() could not be instantiated by the interpreter")
+    cfg_name, cfg = _find_config(rule)
+    # give every field a distinguishable start value so that "set to its default" is still seen as an effect
+    start_cfg = {k: term_of(v) for k, v in cfg.fields.items()}
+    writes_before = {k: len(v) for k, v in cfg.late_writes.items()}
+    rule_before = {k: term_of(v) for k, v in rule.fields.items()}
+    rule_writes_before = {k: len(v) for k, v in rule.late_writes.items()}
+    if repo.lookup_method(rule.cls, name) is None:
+        raise AnalysisError(f"Rule.{name} not found")
+    I.call_method(rule, name, [])
+    eff: dict = {}
+    cfg2 = rule.fields.get(cfg_name)
+    if cfg2 is not cfg and isinstance(cfg2, Inst):
+        for k, v in cfg2.fields.items():
+            if term_of(v) != start_cfg.get(k):
+                eff[k] = _plain(v)
+    else:
+        for k, ws in cfg.late_writes.items():
+            if len(ws) > writes_before.get(k, 0):
+                eff[k] = _plain(cfg.fields[k])
+    for k, ws in rule.late_writes.items():
+        if k != cfg_name and len(ws) > rule_writes_before.get(k, 0):
+            eff["." + k] = _plain(rule.fields[k])
+    return eff, list(I.notes)
+
+
+def _safe_prefix_needle(t) -> bool:
+    """The needle of a startswith test ends in the dot separator: f"{name}." / name + "."."""
+    return isinstance(t, tuple) and len(t) >= 2 and t[0] == "fstr" and t[-1] == ("const", repr("."))
 
 
 def run_t5(repo: Repo, res: Result) -> None:
     rule = repo.cls(RULE, "Rule")
+    effects = {}
+    marker_fields: set = set()
+    for name in FLUENT_EFFECTS:
+        eff, _notes = method_effects(repo, name)
+        effects[name] = eff
+        marker_fields |= {k for k in eff if k.startswith(".")}
+    # the subject/object marker: the (one) Rule field outside the configuration that the fluent methods set to constants;
+    # its values are private vocabulary: whatever `modules_that()` stores means "subjects next", any other value "objects next"
+    marker = next(iter(marker_fields)) if len(marker_fields) == 1 else None
+    subjects_next = effects["modules_that"].get(marker) if marker else None
+    object_values = {repr(effects[n].get(marker)) for n in FLUENT_EFFECTS if n != "modules_that" and marker in effects[n]}
+
+    def marker_value(v):
+        if v == subjects_next:
+            return True
+        return False if len(object_values) == 1 and repr(subjects_next) not in object_values else v
+
     for name, want in FLUENT_EFFECTS.items():
-        got = method_effects(repo, rule, name)
+        got = {("_next" if k == marker else k): (marker_value(v) if k == marker else v) for k, v in effects[name].items()}
         m = repo.lookup_method(rule, name)
         res.add(
             "C01.T5",
@@ -333,79 +502,221 @@ def run_t5(repo: Repo, res: Result) -> None:
             got == want,
             f"{name}() sets {got}" + ("" if got == want else f", documented vocabulary requires {want}"),
             where(m, m.node),
-            kind="structural",
+            kind="effect",
         )
-    # alias rewrite
-    ca = repo.lookup_method(rule, "_convert_aliases")
-    if ca is None:
-        raise AnalysisError("Rule._convert_aliases not found")
-    cfgp = ca.param_names[1]
-    rep = [c for c in calls_in(ca.node) if isinstance(c.func, ast.Name) and c.func.id == "replace"]
-    ok = len(rep) == 1
-    detail = "no dataclasses.replace call"
-    if ok:
-        kw = {k.arg: k.value for k in rep[0].keywords}
-        ok = (
-            dotted(rep[0].args[0]) == cfgp
-            and isinstance(kw.get("except_present"), ast.Constant) and kw["except_present"].value is True
-            and isinstance(kw.get("rule_object_anything"), ast.Constant) and kw["rule_object_anything"].value is False
-            and "modules_to_check" in kw and "modules_to_check_against" in kw and norm(kw["modules_to_check"]) == norm(kw["modules_to_check_against"])
+    # every evaluation runs the whole pipeline afresh: a second evaluation of the same rule object converts, asks and judges
+    # against *its* evaluable
+    from .tables import run_twice
+
+    aa0 = repo.lookup_method(rule, "assert_applies")
+    for imp in (True, False):
+        sc = Scenario("should_only", False, imp)
+        first, second = run_twice(repo, sc)
+        names1 = sorted(q.name for q in first.queries)
+        names2 = sorted(q.name for q in second if _sat(q.guard))
+        stale = [q for q in second if "evaluable" in set().union(roots_of(q.recv), *[roots_of(a) for a in bound_args(repo, q)])]
+        ok = names1 == names2 and not stale
+        res.add(
+            "C01.T5", f"{aa0.relpath}::{aa0.qualname}::pipeline [{'import' if imp else 'be imported by'}]", ok,
+            "assert_applies: alias rewrite -> validation -> matcher.match, afresh on every evaluation" if ok
+            else (f"a second evaluation of the same rule asks `{stale[0].name}` with modules converted against the *previous* evaluable ({stale[0].fi.qualname})" if stale else f"a second evaluation of the same rule asks {names2} instead of {names1}")
+            + ": assert_applies no longer runs conversion, questions and judgement afresh for the evaluable it is given",
+            where(stale[0].fi, stale[0].node) if stale else where(aa0, aa0.node), kind="flow",
         )
-        detail = "anything := except itself (objects = de-duplicated subjects, except flag set, alias flag cleared)" if ok else f"alias rewrite is `{norm(rep[0])}`: 'should not import anything' must become 'should not import modules except <subjects>'"
-        # early return of the unchanged configuration when the alias flag is not set
-        rets = [s for s in own_nodes(ca.node) if isinstance(s, ast.Return) and dotted(s.value) == cfgp]
-        ok2 = len(rets) == 1 and implies(conds_formula(conds(ca, rets[0])), f_not(atom(f"bool({cfgp}.rule_object_anything)")))
-        ok3 = implies(conds_formula(conds(ca, rep[0])), atom(f"bool({cfgp}.rule_object_anything)"))
-        if ok and not (ok2 and ok3):
-            ok = False
-            detail = "the alias rewrite is not applied exactly when rule_object_anything is set"
-    res.add("C01.T5", f"{ca.relpath}::{ca.qualname}::alias rewrite", ok, detail, where(ca, ca.node), kind="structural")
-    # assert_applies applies the rewrite, validates, then matches
+    # 'anything' aliases: should not import anything  ==  should not import modules except <the subjects themselves>
+    inl_roles = Inliner(repo)._role_of_param
     aa = repo.lookup_method(rule, "assert_applies")
-    calls = [c.func.attr for c in calls_in(aa.node) if isinstance(c.func, ast.Attribute)]
-    ok = "_convert_aliases" in calls and "match" in calls and "_prepare_rule_matcher" in calls
-    res.add("C01.T5", f"{aa.relpath}::{aa.qualname}::pipeline", ok, "assert_applies: alias rewrite -> validation -> matcher.match" if ok else f"assert_applies no longer runs the alias rewrite / matcher (calls: {calls})", where(aa, aa.node), nontrivial=False)
+    for sc in alias_scenarios():
+        run = run_scenario(repo, sc)
+        I = run.interp
+        tag = "import" if sc.import_ else "be imported by"
+        # behaviour requirement: verbs untouched, except flag set
+        ok = len(run.behavior_new) == 1
+        detail = f"{len(run.behavior_new)} behaviour requirement(s) built"
+        taint = None
+        if ok:
+            e = run.behavior_new[0]
+            init = repo.lookup_method(e.result.cls, "__init__")
+            params = init.param_names[1:] if init else list(e.result.cls.ann_attrs)
+            bound = dict(zip(params, bound_args(repo, e, params)))
+            want = {"should": atom("cfg.should"), "should_only": atom("cfg.should_only"), "should_not": TRUE, "except_present": TRUE}
+            bad = []
+            for p, role in inl_roles.items():
+                f = I.truth(bound[p]) if p in bound else FALSE
+                try:
+                    same = equivalent(f, want[role])
+                except AnalysisError:
+                    same = False
+                if not same:
+                    bad.append(f"{role} = {show(f)}")
+                    taint = taint or (", ".join(tainted(f)) or None)
+            ok = not bad
+            detail = (
+                "anything := except itself (except flag set, verbs untouched)" if ok
+                else f"'should not {tag} anything' is evaluated with {', '.join(bad)}: the alias must become 'should not {tag} modules except <subjects>' (except flag set, every other verb flag passed on unchanged)"
+            )
+        _add(res, "C01.T5", f"{aa.relpath}::{aa.qualname}::alias rewrite [{tag} anything: flags]", ok, detail, where(aa, aa.node), "flow", taint)
+        # module requirement: objects := subjects (the same modules), direction kept
+        first = run.modreq_new[0] if run.modreq_new else None
+        fargs = bound_args(repo, first) if first is not None else []
+        ok = first is not None and len(fargs) >= 3
+        detail = "no module requirement built"
+        if ok:
+            a0, a1, flag = fargs[:3]
+            same = a0 is a1 or (isinstance(a0, Coll) and isinstance(a1, Coll) and len(a0.entries) == len(a1.entries) and all(term_of(x) == term_of(y) and _same(g, h) for (x, g), (y, h) in zip(a0.entries, a1.entries)))
+            ok = same and roots_of(a0) == {"S"} and isinstance(flag, Const) and flag.value is sc.import_
+            detail = (
+                "rule objects := the (de-duplicated) rule subjects themselves" if ok
+                else f"alias rewrite builds the requirement from subjects `{show_term(term_of(a0))[:90]}` and objects `{show_term(term_of(a1))[:90]}`: 'anything' must become 'except <the subjects themselves>' (objects = the very same modules)"
+            )
+        res.add("C01.T5", f"{aa.relpath}::{aa.qualname}::alias rewrite [{tag} anything: objects]", ok, detail, where(aa, aa.node), kind="flow")
+        # de-duplication of the subjects: only strict dotted descendants of another subject may be dropped
+        if first is not None and fargs and isinstance(fargs[0], Coll):
+            subj = fargs[0]
+            for x, g in subj.entries:
+                t = term_of(x)
+                okx = isinstance(t, tuple) and t[0] == "elem" and t[1] == ("root", "S")
+                problems, unknown = [], []
+                for a in sorted(atoms_of(g)):
+                    info = I.atom_info.get(a, {})
+                    k = info.get("kind")
+                    if k == "strtest":
+                        term = info["term"]
+                        if term[1] != "startswith" or len(term) < 4 or not _safe_prefix_needle(term[3]):
+                            node = info.get("node")
+                            problems.append(f"`{ast.unparse(node) if node is not None else a}` is not bounded by the dot separator: a sibling such as `pkg.utils` is dropped as if it were a sub module of `pkg.util`")
+                    elif k == "eq" and all(_plain_name(t_) or _safe_prefix_needle(t_) for t_ in info.get("terms", ())):
+                        continue  # equality of two whole names (or of a name part with `<name>.`)
+                    else:
+                        unknown.append(a)
+                if unknown and not problems:
+                    # tests of another shape (split / parents / slices): ask the shared F-NAME classification about the functions involved
+                    verdicts = _fname_verdicts(repo, [I.atom_info.get(a, {}).get("fi") for a in unknown], run)
+                    if verdicts.get("unsafe"):
+                        problems += [f"{w} (F-NAME)" for w in verdicts["unsafe"][:2]]
+                    elif not verdicts.get("unknown"):
+                        # no string-relational operation on module names is left unexplained in the functions involved: the
+                        # remaining tests compare whole names (equality / set membership, e.g. against get_parent_modules(..))
+                        unknown = []
+                fi, node = subj_made_at(I, subj, aa)
+                cons = f"{fi.relpath}::{fi.qualname}::alias subjects [{tag} anything]"
+                if not okx:
+                    res.add("C01.T5", cons, False, f"the alias rewrite evaluates `{show_term(t)[:80]}` instead of the rule subjects", where(fi, node), kind="flow")
+                elif problems:
+                    res.add("C01.T5", cons, False, "a rule subject is dropped from the alias rewrite although it is not a sub module of another subject: " + "; ".join(problems), where(fi, node), kind="flow")
+                elif unknown:
+                    res.undecide("C01.T5", cons, f"a rule subject is kept under `{show(g)[:160]}`: the tests {unknown[:3]} are not recognised as 'is a strict dotted descendant of another subject'", where(fi, node))
+                else:
+                    res.add("C01.T5", cons, True, "subjects are only dropped when they are strict dotted descendants (prefix + '.') of another subject", where(fi, node), kind="flow")
+        # the rewritten rule is evaluated as 'should not except'
+        zero = {"cfg.should": False, "cfg.should_only": False, "cfg.except_present": False}
+        asked = {"explicit" if q.name == EXPLICIT_QUERY else "other" for q in run.queries if _sat(assign_atoms(q.guard, zero))}
+        ok = asked == {"other"}
+        res.add("C01.T5", f"{aa.relpath}::{aa.qualname}::alias rewrite [{tag} anything: question]", ok, f"'should not {tag} anything' asks {sorted(asked)}" + ("" if ok else ", expected the 'other' question only (neg(any edge))"), where(aa, aa.node), kind="decision-table")
+
+
+def _plain_name(t) -> bool:
+    """`<element of the subjects>.identifier` (or another attribute of it): a whole module name."""
+    return isinstance(t, tuple) and len(t) == 3 and t[0] == "attr" and isinstance(t[1], tuple) and t[1] and t[1][0] == "elem"
+
+
+def _fname_verdicts(repo: Repo, funcs: list, run: Run) -> dict:
+    """Verdicts of the shared F-NAME lint (rules/names.py) on the name-relational sites of the given functions (or, when the
+    function of a test is unknown, of every Rule function the alias evaluation went through)."""
+    from . import names
+
+    fqs = {f.fq for f in funcs if f is not None}
+    if not fqs or any(f is None for f in funcs):
+        fqs |= {fq for fq in run.interp.frames_of if ("::Rule." in fq or "::Rule::" in fq)}
+    out: dict = {}
+    try:
+        for s_ in names.scan(repo):
+            top = s_.fi
+            while top.outer is not None and top.fq not in fqs:
+                top = top.outer
+            if top.fq in fqs and s_.name_typed:
+                out.setdefault("unsafe" if s_.verdict == "unsafe" else "safe" if s_.verdict in ("safe", "reviewed", "not-name") else "unknown", []).append(s_.why)
+    except AnalysisError:
+        return {"unknown": ["F-NAME scan failed"]}
+    return out
+
+
+def subj_made_at(I: Interp, coll: Coll, fallback: FuncInfo):
+    """Function in which the first element was added to a collection (diagnostics)."""
+    for a, info in I.atom_info.items():
+        if info.get("kind") == "strtest" and info.get("fi") is not None:
+            return info["fi"], info.get("node")
+    return fallback, fallback.node
+
+
+def _same(a, b) -> bool:
+    try:
+        return equivalent(a, b)
+    except AnalysisError:
+        return False
+
+
+# --------------------------------------------------------------------------- T6
+
+
+_CATCHES_ASSERTION = {"", "Exception", "BaseException", "AssertionError"}
 
 
 def run_t6(repo: Repo, res: Result) -> None:
-    matcher = repo.cls(MATCHER, "RuleMatcher")
-    match = matcher.methods.get("match")
-    if match is None:
-        raise AnalysisError("RuleMatcher.match not found")
-    raises = [s for s in own_nodes(match.node) if isinstance(s, ast.Raise)]
-    ok = len(raises) == 1 and isinstance(raises[0].exc, ast.Call) and dotted(raises[0].exc.func) == "AssertionError"
-    detail = "exactly one `raise AssertionError`"
-    if ok:
-        cs_ = conds(match, raises[0])
-        ok = len(cs_) == 1 and cs_[0][1] is True and isinstance(cs_[0][0], ast.Name)
-        var = cs_[0][0].id if ok else None
-        if ok:
-            assigns = [s for s in own_nodes(match.node) if isinstance(s, ast.Assign) and dotted(s.targets[0]) == var]
-            ok = len(assigns) == 1 and isinstance(assigns[0].value, ast.Call) and "_find_rule_violations" in norm(assigns[0].value.func)
-        detail = "AssertionError raised exactly when the RuleViolations object is truthy" if ok else f"the verdict raise is guarded by `{' and '.join(norm(e) for e, _ in cs_)}` instead of the truthiness of the violations found"
-    res.add("C01.T6", f"{match.relpath}::{match.qualname}::verdict", ok, detail, where(match, raises[0] if raises else match.node), kind="dominance")
-    # no other exit swallows the verdict: the function has no return with a value and no try
-    swallow = [n for n in own_nodes(match.node) if isinstance(n, (ast.Try,)) or (isinstance(n, ast.Return) and n.value is not None)]
-    res.add("C01.T6", f"{match.relpath}::{match.qualname}::no swallowing", not swallow, "match has no handler or early return" if not swallow else f"match contains `{header(swallow[0])}`", where(match, match.node), nontrivial=False)
-    viol = repo.cls(VIOLATIONS, "RuleViolations")
-    b = viol.methods.get("__bool__")
+    probe = run_scenario(repo, Scenario("should", False, True))
+    matcher = probe.matcher.cls if probe.matcher is not None else repo.cls(MATCHER, "RuleMatcher")
+    match = repo.lookup_method(matcher, "match") or repo.lookup_method(repo.cls(RULE, "Rule"), "assert_applies")
+    bad = []
+    site = None
+    swallow = []
+    for sc in legal_scenarios():
+        run = run_scenario(repo, sc)
+        live = [v for v in run.verdicts if _sat(v.guard)]
+        if live:
+            site = site or live[0]
+        if run.violations is None:
+            bad.append(f"'{sc.name}': no RuleViolations object is built")
+            continue
+        want = atom(f"truthy({run.violations.cls.name}#{run.violations.serial})")
+        got = f_or([v.guard for v in live])
+        if not _same(got, want):
+            bad.append(f"'{sc.name}': AssertionError is raised under `{show(got)[:120]}` instead of exactly when the violations found are truthy")
+        for fi, node in run.interp.try_nodes:
+            if not fi.module.name.startswith("pytestarch.eval_structure"):
+                names = {("" if h.type is None else ast.unparse(h.type).split(".")[-1]) for h in node.handlers}
+                if names & _CATCHES_ASSERTION or any(isinstance(h.type, ast.Tuple) for h in node.handlers):
+                    swallow.append((fi, node))
+    fi, node = (site.fi, site.node) if site is not None else (match, match.node)
+    ok = not bad
+    res.add(
+        "C01.T6", f"{fi.relpath}::{fi.qualname}::verdict", ok,
+        "AssertionError raised exactly when the RuleViolations object is truthy (all 12 evaluated rule shapes)" if ok else "the verdict is not the truthiness of the violations found: " + "; ".join(bad[:3]),
+        where(fi, node), kind="dominance",
+    )
+    res.add(
+        "C01.T6", f"{match.relpath}::{match.qualname}::no swallowing", not swallow,
+        "no handler between the verdict and the caller" if not swallow else f"`{swallow[0][0].qualname}` wraps the evaluation in a handler that can swallow the AssertionError",
+        where(*swallow[0]) if swallow else where(match, match.node), nontrivial=False,
+    )
+    # truthiness covers every bucket
+    viol = violations_class(repo)
+    b = repo.lookup_method(viol, "__bool__") or repo.lookup_method(viol, "__len__")
     fields = list(viol.ann_attrs)
     if b is None:
-        # dataclass without __bool__ is always truthy
         res.add("C01.T6", f"{viol.module.relpath}::RuleViolations::__bool__", False, "RuleViolations defines no __bool__: every evaluation would raise", kind="structural")
     else:
-        text = norm(b.node, 2000)
-        uses_fields = any(isinstance(c, ast.Call) and dotted(c.func) == "fields" for c in ast.walk(b.node))
-        gen_filter = any(isinstance(g, ast.comprehension) and g.ifs for g in ast.walk(b.node))
-        sliced = any(isinstance(n, ast.Subscript) and isinstance(n.slice, ast.Slice) for n in ast.walk(b.node))
-        covered = (uses_fields and not gen_filter and not sliced and any(isinstance(c, ast.Call) and dotted(c.func) == "any" for c in ast.walk(b.node))) or all(f in text for f in fields)
-        res.add(
-            "C01.T6",
-            f"{b.relpath}::{b.qualname}::covers all buckets",
-            covered,
-            f"truthiness is `any` over all {len(fields)} fields" if covered else "RuleViolations.__bool__ does not cover every violation bucket: some violations never raise",
-            where(b, b.node),
-            kind="structural",
+        I = Interp(repo, descend_pipeline)
+        inst = I.instantiate(viol, [], {f: Sym(("root", f), "set") for f in fields}, None, None)
+        out = I.call_method(inst, b.name, [])
+        got = I.truth(out)
+        want = f_or([atom(f"bool({f})") for f in fields])
+        covered = _same(got, want)
+        missing = [f for f in fields if f"bool({f})" not in atoms_of(got)]
+        _add(
+            res, "C01.T6", f"{b.relpath}::{b.qualname}::covers all buckets", covered,
+            f"truthiness is the disjunction over all {len(fields)} fields" if covered
+            else "RuleViolations.__bool__ does not cover every violation bucket: some violations never raise" + (f" (not consulted: {missing})" if missing else f" (truthiness is `{show(got)[:160]}`)"),
+            where(b, b.node), "structural", ", ".join(tainted(got)) or ("; ".join(I.notes[:2]) if I.notes and not missing else None),
         )
     res.floor("C01.T6", 3, 3)
 
@@ -413,30 +724,41 @@ def run_t6(repo: Repo, res: Result) -> None:
 from .searchrules import run_search  # noqa: E402,F401  (rules C01.S live in rules/searchrules.py)
 
 
+def guarded_search(repo: Repo, res: Result) -> None:
+    """C01.S is owned by the search model; a shape it cannot read must not hide the verdicts of T1-T6."""
+    try:
+        run_search(repo, res)
+    except AnalysisError as e:
+        res.undecide("C01.S", "pytestarch/eval_structure/breadth_first_searches.py", f"search model: {e}")
+
+
 def run(repo: Repo) -> Result:
     res = Result("C01")
     res.explanation = (
-        "Decides, for every rule configuration, the dispatch from the fluent configuration to graph questions and from answers to the verdict: "
+        "Decides, for every rule configuration, the dispatch from the fluent configuration to graph questions and from answers to the verdict, "
+        "on an abstract interpretation of Rule.assert_applies (concrete configuration flags, symbolic data; 6 legal points x 2 directions + 2 aliases): "
         "(T1) the explicit / 'other' questions are asked exactly at the documented (verb, except) points; (T2) each of the eight violation "
         "buckets is gated by the documented flag, fed by the documented query and judged in the documented mode (present / absent, per key); "
-        "(T3) no bucket is starved and no answer unread; (T4) importer/importee exchange parity and orientation of the 'other' searches; "
-        "(T5) effect of every fluent method on the configuration and the 'anything' rewrite; (T6) AssertionError exactly on a truthy "
-        "RuleViolations covering all buckets; (S) the searches classify every neighbour by edge kind before pushing/recording/marking, follow "
-        "only hierarchy edges from the subject, record (importer, importee) on import edges only, restrict targets to the object's subtree and "
-        "exclude the subject's own subtree from 'something else'."
+        "(T3) no bucket is starved and no answer unread; (T4) importer/importee exchange parity, orientation of the 'other' searches and "
+        "evaluation-local matcher state; (T5) effect of every fluent method on the configuration and the 'anything' rewrite; (T6) AssertionError "
+        "exactly on a truthy RuleViolations covering all buckets; (S) the searches classify every neighbour by edge kind before "
+        "pushing/recording/marking, follow only hierarchy edges from the subject, record (importer, importee) on import edges only, restrict "
+        "targets to the object's subtree and exclude the subject's own subtree from 'something else'."
     )
     res.not_decided = "that the three graph searches compute the right set on every graph (needs execution / loop unrolling over graphs)."
-    res.trusted_base = ["LANGUAGE_DEFINTION.md (cross-checked with a frozen copy in rules/tables.py)", "engine resolver, CFG path conditions and formula evaluator"]
+    res.trusted_base = ["LANGUAGE_DEFINTION.md (cross-checked with a frozen copy in rules/tables.py)", "the abstract interpreter rules/absint.py (evaluation rules for the Python subset used by the pipeline)", "engine resolver, CFG path conditions and formula evaluator"]
     markers, sem = parse_language_doc(repo)
-    inl = Inliner(repo)
-    issues = run_t1(repo, res, inl, markers)
-    run_t2_t3(repo, res, inl, sem, issues)
-    run_t4(repo, res, inl)
+    run_t1(repo, res, None, markers)
+    run_t2_t3(repo, res, None, sem)
+    run_t4(repo, res, None)
     run_t5(repo, res)
     run_t6(repo, res)
-    run_search(repo, res)
-    res.floor("C01.T1", 12, sum(1 for o in res.obligations if o.rule == "C01.T1"))
-    res.floor("C01.T2", 6, sum(1 for o in res.obligations if o.rule == "C01.T2"))
-    res.floor("C01.T4", 8, sum(1 for o in res.obligations if o.rule == "C01.T4"))
-    res.floor("C01.T5", 10, sum(1 for o in res.obligations if o.rule == "C01.T5"))
+    notes = sorted({n for sc in legal_scenarios() for n in run_scenario(repo, sc).interp.notes})
+    if notes:
+        res.observe("constructs on the evaluated pipeline that the interpreter walked without a model: " + "; ".join(notes[:8]))
+    guarded_search(repo, res)
+    res.floor("C01.T1", 12, sum(1 for o in res.obligations if o.rule == "C01.T1") + sum(1 for u in res.undecided if u["rule"] == "C01.T1"))
+    res.floor("C01.T2", 6, sum(1 for o in res.obligations if o.rule == "C01.T2") + sum(1 for u in res.undecided if u["rule"] == "C01.T2"))
+    res.floor("C01.T4", 8, sum(1 for o in res.obligations if o.rule == "C01.T4") + sum(1 for u in res.undecided if u["rule"] == "C01.T4"))
+    res.floor("C01.T5", 10, sum(1 for o in res.obligations if o.rule == "C01.T5") + sum(1 for u in res.undecided if u["rule"] == "C01.T5"))
     return res
